@@ -61,6 +61,10 @@ FDECL size_t prchunk_getlineno(prch_ctx_t ctx, char **p, int lno);
 FDECL size_t prchunk_getline(prch_ctx_t ctx, char **p);
 FDECL void prchunk_reset(prch_ctx_t ctx);
 FDECL int prchunk_haslinep(prch_ctx_t ctx);
+/**
+ * Return non-0 if the line most recently handed out by prchunk_getline()
+ * was terminated by \r\n rather than \n. */
+FDECL int prchunk_crlfp(prch_ctx_t ctx);
 
 FDECL void prchunk_rechunk(prch_ctx_t ctx, char delim, int ncols);
 FDECL size_t prchunk_getcolno(prch_ctx_t ctx, char **p, int lno, int cno);
